@@ -11,10 +11,12 @@
 
   Same branch order and names as the Python. Error branches of the Python (ValueError from
   `int()`/tuple unpacking, IndexError from `fields[0]`/`fields[1]`/`split()[1]`, ZombieProcess,
-  AccessDenied from `path_exists_strict`) are explicit `Except` constructors. Import-free.
+  AccessDenied from `path_exists_strict`) are explicit `Except` constructors. Import-free (Base
+  and the regex model Model/C13Re.lean only).
 -/
 import PsutilModel.Base.Bytes
 import PsutilModel.Base.Dec
+import PsutilModel.Model.C13Re
 namespace Psutil.C13
 
 inductive Exc
@@ -56,6 +58,14 @@ structure Cfg where
   rollupSwap : Bytes
   pmemFields : List String
   pfullmemFields : List String
+  /-- the three compiled patterns of `_parse_smaps` (Model/C13Re.lean `compileOne` of the pattern
+      texts the translator extracted; `[]` when a text is outside the modelled fragment) -/
+  privatePat : List Re.Atom
+  pssPat : List Re.Atom
+  swapPat : List Re.Atom
+  /-- does `_parse_smaps_rollup` carry `@wrap_exceptions`? (it must not: the decorator would turn
+      ESRCH into NoSuchProcess before `memory_full_info`'s `except` clause sees it) -/
+  rollupWrapped : Bool
 
 /-! ### Python primitives not in Base -/
 
@@ -139,12 +149,22 @@ def rollupLoop (c : Cfg) : List Bytes → Full → Res Full
 def parseSmapsRollup (c : Cfg) (content : Bytes) : Res Full :=
   rollupLoop c (linesOf content) ⟨0, 0, 0⟩
 
-/-! ### _parse_smaps — the three regexes as line-anchored extraction
+/-! ### _parse_smaps
+
+  The code: `sum(map(int, RE.findall(smaps_data))) * 1024` for three patterns, over the WHOLE text.
+  `parseSmaps` is exactly that, with the regex model of Model/C13Re.lean (`\s+` may run over a
+  newline, `.*` may not).
+
+  The LINE-ANCHORED READING of the same three patterns (`parseSmapsLines`, what one would say
+  the regexes mean):
 
   `\nPss\:\s+(\d+)`   : a line (not the first) that starts with `Pss:`, ≥ 1 blanks, ≥ 1 digits
   `\nSwap\:\s+(\d+)`  : same with `Swap:`
   `\nPrivate.*:\s+(\d+)` : a line that starts with `Private`; greedy `.*:` = the right-most
-                           colon that is followed by blanks and digits. -/
+                           colon that is followed by blanks and digits.
+
+  The two coincide on every rendered smaps file (Proofs/C13Regex.lean) and differ on e.g. a bare
+  `Swap:` line followed by a header whose address starts with decimal digits. -/
 
 /-- `\s+(\d+)` at the start of `s` -/
 def wsDigits (s : Bytes) : Option Nat :=
@@ -179,11 +199,27 @@ def sumMatches (f : Bytes → Option Nat) (lines : List Bytes) : Nat :=
 /-- `_read_smaps_file`: `f.read().strip()` -/
 def readSmaps (content : Bytes) : Bytes := stripWs content
 
-def parseSmaps (c : Cfg) (content : Bytes) : Full :=
+/-- the line-anchored reading of `_parse_smaps` -/
+def parseSmapsLines (c : Cfg) (content : Bytes) : Full :=
   let lines := (splitOn 10 (readSmaps content)).drop 1     -- the regexes need a preceding `\n`
   { uss := sumMatches matchPrivate lines * c.smapsFactor
     pss := sumMatches (matchKey kPss) lines * c.smapsFactor
     swap := sumMatches (matchKey kSwap) lines * c.smapsFactor }
+
+/-- `sum(map(int, RE.findall(smaps_data)))`; ValueError when `int()` rejects a group -/
+def sumFindall (p : List Re.Atom) (data : Bytes) : Res Nat :=
+  match Re.sumInts (Re.findall p data) with
+  | some v => .ok v
+  | none => .error .valueError
+
+/-- `_parse_smaps` as written: three `findall`s over the whole text -/
+def parseSmaps (c : Cfg) (content : Bytes) : Res Full :=
+  let data := readSmaps content
+  match sumFindall c.privatePat data, sumFindall c.pssPat data, sumFindall c.swapPat data with
+  | .ok u, .ok p, .ok s => .ok { uss := u * c.smapsFactor, pss := p * c.smapsFactor, swap := s * c.smapsFactor }
+  | .error e, _, _ => .error e
+  | _, .error e, _ => .error e
+  | _, _, .error e => .error e
 
 /-! ### memory_full_info -/
 
@@ -200,9 +236,12 @@ def memoryFullInfo (c : Cfg) (hasRollup : Bool) (pagesize : Nat)
     if hasRollup then
       match rollup with
       | .data b => parseSmapsRollup c b
-      | .enoent => .ok (parseSmaps c smaps)
-      | .esrch => .ok (parseSmaps c smaps)
-    else .ok (parseSmaps c smaps)
+      | .enoent => parseSmaps c smaps
+      | .esrch =>
+        -- `except (ProcessLookupError, FileNotFoundError)` catches it — unless a `@wrap_exceptions`
+        -- on the helper has already turned it into NoSuchProcess
+        if c.rollupWrapped then .error .noSuchProcess else parseSmaps c smaps
+    else parseSmaps c smaps
   match ext with
   | .error e => .error e
   | .ok f =>
